@@ -168,7 +168,8 @@ pub fn exec(case: &[i64]) -> Outcome {
         if j.did() != u.did() { why = Some("join altered the DID".into()); }
       }
       let mut all = start.clone().into_bytes(); all.extend(&seg);
-      let mut o = classes(&all, Outcome::new(vec![]).class(if r.is_ok() { "join-ok" } else { "join-err" }));
+      let mut jobs = vec![r.is_ok() as i64]; if let Ok(j) = &r { put_bytes(&mut jobs, j.to_string().as_bytes()); }
+      let mut o = classes(&all, Outcome::new(jobs).class(if r.is_ok() { "join-ok" } else { "join-err" }));
       if colon_tail(&start) && o.known.is_none() { o = o.known("K_colon_tail"); }
       match why { Some(w) => o.fail(&w), None => o }
     }
@@ -285,7 +286,7 @@ pub fn gen(rng: &mut Rng, thorough: bool, sink: &mut Sink) {
   }
   // (c) setters and join over a pool of values x a pool of segments
   let starts = ["did:a:b", "did:a:b/p", "did:a:b?q", "did:a:b#f", "did:example:123/p/q?x=1&y=2#frag", "did:a:b:c/p?q?#f?"];
-  let segs = ["", "/", "/p", "p", "/p q", "?", "?q", "q", "??", "?q?r", "#", "#f", "f", "##", "a#b", "key 2", "/%41", "/%4", "%41", "?%41", "#%zz", "/é", "/a/../b", "/./x", "/a/./b/..", "?a=b&c=d", "#f?g/h", "/p?q#f", "?q#f", "/p#f", "noleading", "/{x}", "/~!$&'()*+,;=@:"];
+  let segs = ["", "/", "/p", "p", "/p q", "?", "?q", "q", "??", "?q?r", "#", "#f", "f", "##", "a#b", "key 2", "/%41", "/%4", "%41", "?%41", "#%zz", "/é", "/a/../b", "/./x", "/a/./b/..", "/..", "/.", "/../..", "/a/b/../../c", "//a//b", "/a/.", "/a/..", "/.a", "/..a", "/a./b", "/a/...", "/../a?q", "/./?q#f", "/a/../?", "/%2e%2e/x", "/a/b/c/../../../../d", "?a=b&c=d", "#f?g/h", "/p?q#f", "?q#f", "/p#f", "noleading", "/{x}", "/~!$&'()*+,;=@:"];
   for st in starts.iter().map(|s| s.to_string()).chain(valid_pool.iter().cloned().take(if thorough { 40 } else { 10 })) {
     for sg in segs { for op in 0..3 { for flag in [1i64, 0] {
       let mut c = vec![3]; put_bytes(&mut c, st.as_bytes()); c.push(op); c.push(flag); put_bytes(&mut c, sg.as_bytes()); sink.case(c, "setter");
